@@ -130,7 +130,8 @@ class LoopMixin:
                 r = self.as_ref(d, st)
                 keys = st.read("dict.keys", r)
                 m = st.read("dict.map", r)
-                return ("seq", keys, None, lambda s, i: V("tuple", xs=[V("val", keys[i]), V("val", z3.Select(m, keys[i]))]))
+                kt, vt = self.dict_types(d.elem)
+                return ("seq", keys, None, lambda s, i: V("tuple", xs=[self.unbox(keys[i], kt, s), self.unbox(z3.Select(m, keys[i]), vt, s)]))
             if kind == "map":
                 raise Unsupported(f"{self.where(node)}: iteration over map()")
         if v.k in ("ref", "val") and v.cls == "iterator":
